@@ -2,6 +2,7 @@ package mc
 
 import (
 	"fmt"
+	"strings"
 	"math/rand"
 	"sync"
 
@@ -69,12 +70,12 @@ type abciResult struct {
 
 func signerOf(op Op) string {
 	if op.Kind == "msg_add_allowed" {
-		return op.Bidder
+		return strings.TrimSuffix(op.Bidder, "^")
 	}
 	if op.Kind == "update_params" {
 		return "" // signed by the gov module account: not replayable as a user transaction
 	}
-	return op.Signer
+	return strings.TrimSuffix(op.Signer, "^") // "<actor>^" is the same account, its address written in upper case
 }
 
 // ReplayABCI replays ops through the real ABCI pipeline and compares with the emulation.
@@ -174,7 +175,18 @@ func ReplayABCI(cfg world.Config, ops []Op) abciResult {
 				seqs[who]++
 			}
 		}
-		fb, ferr := wA.App.FinalizeBlock(&abci.RequestFinalizeBlock{Height: height, Time: curTime, Txs: txs})
+		var fb *abci.ResponseFinalizeBlock
+		var ferr error
+		func() {
+			// a panic in a block hook is not recovered by the node: it crashes; here it counts as a
+			// failing FinalizeBlock, to be compared with the emulated block hook's panic
+			defer func() {
+				if r := recover(); r != nil {
+					ferr = fmt.Errorf("panic in FinalizeBlock: %v", r)
+				}
+			}()
+			fb, ferr = wA.App.FinalizeBlock(&abci.RequestFinalizeBlock{Height: height, Time: curTime, Txs: txs})
+		}()
 		res.Blocks++
 		if (ferr != nil) != (eBlockErr != nil) {
 			return abciResult{Blocks: res.Blocks, Txs: res.Txs, Err: fmt.Sprintf("block %d at %s: FinalizeBlock error %v, emulated block hook error %v", height, curTime, ferr, eBlockErr)}
